@@ -8,7 +8,7 @@
   implements the two guards by CLOSED FORMS: `isZero (fin a) = (|a| ≤ ε)`, `isOne (fin a) = (1-2ε ≤ a ≤ 1+4ε)`.
   This file proves that the closed forms are equal to the generic definition, for both formats and for every
   extended value (finite, `±inf`, NaN), and derives the `4ε` bound on `ulps_eq!` entries that the fusion
-  theorems (C02) left open.
+  theorems (C02) left open while `compute_base_rate` took its per-entry shortcut on `ulps_eq!` (until repair c8a7116).
 
   Helper lemmas: SLV/Refine/GuardLemmas.lean (namespace `SLV.Guard`).
 -/
@@ -156,28 +156,16 @@ theorem Guards_entry_bound_sharp :
     rw [Guard.ulpIdx_hi]; simp
   · rw [abs_sub_comm, abs_of_nonneg (by linarith)]; ring
 
-/-- C02, base-rate sum with NO hypothesis on the per-entry `ulps_eq!` shortcut: the fused base rate of
-    two well-formed opinions sums to one up to `4·n·ε` (closing the bound left open by
-    `C02_base_rate_sum_bound`) -/
+/-- C02, base-rate sum: the fused base rate of two well-formed opinions sums to one up to `4·n·ε`.  (Proved for the
+    `ulps_eq!` shortcut of `compute_base_rate` from `Guards_ulpsEq_entry_bound`; since repair c8a7116 of the crate the
+    shortcut is taken at exactly equal entries only, the sum is exactly one -- `C02_base_rate_sum` -- and this bound
+    is kept as its corollary.  The entry bound above remains a fact about `ulps_eq!`; fusion no longer uses it.) -/
 theorem C02_base_rate_sum_eps (op : FuseOp) (same : Bool) {b1 b2 a1 a2 : Fin n → ℚ} {u1 u2 : ℚ}
     (h1 : WF b1 u1 a1) (h2 : WF b2 u2 a2) :
     |∑ i, (fuseQ f op same b1 u1 a1 b2 u2 a2).2.2 i - 1| ≤ 4 * n * f.eps := by
   have h0 := XQ.eps_pos f
-  have le1 : ∀ {b a : Fin n → ℚ} {u : ℚ}, WF b u a → ∀ i, |a i| < 2 := by
-    intro b a u h i
-    have := Finset.single_le_sum (f := a) (fun j _ => h.ha0 j) (Finset.mem_univ i)
-    rw [abs_of_nonneg (h.ha0 i)]; linarith [h.ha]
-  refine le_trans (C02.C02_base_rate_sum_bound (f := f) op same h1 h2) ?_
-  calc ∑ i, (if sc f a1 a2 i then |a1 i - a2 i| else 0)
-      ≤ ∑ _i : Fin n, 4 * f.eps := by
-        apply Finset.sum_le_sum
-        intro i _
-        split
-        · rename_i hsc
-          exact Guards_ulpsEq_entry_bound (le1 h1 i) (le1 h2 i) hsc
-        · linarith
-    _ = 4 * n * f.eps := by
-        rw [Finset.sum_const, Finset.card_univ, Fintype.card_fin, nsmul_eq_mul]; ring
+  rw [C02.C02_base_rate_sum (f := f) op same h1 h2, sub_self, abs_zero]
+  positivity
 
 /-! ## non-vacuity / concrete values -/
 
@@ -199,8 +187,8 @@ example : XQ.ulpsEq (XQ.fin (1 + 5 * Fmt.f64.eps) : XQ .f64) (XQ.fin 1) = false 
   simp only [XQ.isOne, decide_eq_false_iff_not, not_and, not_le]
   intro _; linarith
 
-/-- `C02_base_rate_sum_eps` applies to the operands of the C02 defect witness (a fused base rate summing
-    to `1 + ε/4`): hypotheses satisfiable with a non-zero defect -/
+/-- `C02_base_rate_sum_eps` applies to the operands of the repaired C02 defect witness (a fused base rate that summed
+    to `1 + ε/4` before repair c8a7116) -/
 example : WF (n := 3) ![1/4, 1/4, 0] (1/2) ![8388609/16777216, 8388607/16777216, 0] ∧
     WF (n := 3) ![1/4, 1/4, 0] (1/2) ![1/2, 0, 1/2] := by
   constructor <;> constructor <;> simp [Fin.forall_fin_succ, Fin.sum_univ_succ] <;> norm_num
